@@ -13,13 +13,16 @@ CONSTANTS MaxKeyLevels, MaxItems, MaxTotal, ItemMax, MaxEvals, MaxDepth,
           NegItems,     \* items range over -NegItems .. ItemMax (a cfg cannot say ItemMin = -1)
           WithIds,      \* TRUE: items also range over id() of the dict / list spec nodes
           KFs, Aggs, VFs,
-          LimitNs       \* top-level Limit(n) for n in LimitNs; 99 = no Limit
+          LimitNs,      \* top-level Limit(n) for n in LimitNs; 99 = no Limit
+          ItemKind,     \* "int" | "str" | "tup": what the items are (one orderable kind per universe)
+          NestedLimitNs,\* Limit(n) directly above the leaf, under >= 1 key level; 99 = none
+          SampleNs      \* Sample(n) leaves for n in SampleNs
 
 NoLimit == 99
 
 Leaves(nk) ==
-  {LeafL("list", "", vf) : vf \in VFs \ {"inner"}}
-  \cup {LeafL("last", "", vf) : vf \in (VFs \ {"skip3", "inc", "inner"}) \cup (IF nk > 0 THEN VFs \cap {"skip3"} ELSE {})}
+  {LeafL("list", "", vf) : vf \in VFs \ {"inner", "list2"}}
+  \cup {LeafL("last", "", vf) : vf \in (VFs \ {"skip3", "inc", "inner", "list2"}) \cup (IF nk > 0 THEN VFs \cap {"skip3"} ELSE {})}
   \cup {LeafL("agg", a, "ident") : a \in Aggs \ {"Flatten", "Merge"}}
   \cup {LeafL("agg", "Sum", "inc") : a \in Aggs \cap {"Sum"}}
   \cup {LeafL("agg", "Flatten", "pair") : a \in Aggs \cap {"Flatten"}}
@@ -28,10 +31,25 @@ Leaves(nk) ==
   \cup {LeafL("agg", "Sum", "gsum") : a \in Aggs \cap {"Sum"}, v \in VFs \cap {"inner"}}
   \cup {LeafL("agg", "Flatten", "gcount") : a \in Aggs \cap {"Flatten"}, v \in VFs \cap {"inner"}}
   \cup {LeafL("agg", "Merge", "gbsum") : a \in Aggs \cap {"Merge"}, v \in VFs \cap {"inner"}}
+  \cup {SampleL(n) : n \in SampleNs}
+  \* "list2" \in VFs: the list spec with two value specs [val, T * 10]
+  \cup {LeafL("list2", "", vf) : vf \in {"ident", "inc"}, v \in VFs \cap {"list2"}}
 
-MkSpec(lim, kfs, leaf) ==
+MkSpec(lim, kfs, nlim, leaf) ==
   (IF lim = NoLimit THEN <<>> ELSE <<LimitL(lim)>>)
-  \o [i \in 1..Len(kfs) |-> DictL(kfs[i])] \o <<leaf>>
+  \o [i \in 1..Len(kfs) |-> DictL(kfs[i])]
+  \o (IF nlim = NoLimit THEN <<>> ELSE <<LimitL(nlim)>>) \o <<leaf>>
+
+\* words / pairs are only ordered, counted and collected: no arithmetic on them
+OrdSafe(sp) ==
+  /\ \A l \in 1..Len(sp) : sp[l].op = "dict" => sp[l].key \in {"ident", "len", "first"}
+  /\ LET L == sp[Len(sp)] IN
+     \/ L.op \in {"list", "last"} /\ L.val = "ident"
+     \/ L.op = "agg" /\ L.agg \in {"First", "Max", "Min", "Count", "Sample"}
+NumSafe(sp) == \A l \in 1..Len(sp) : sp[l].op = "dict" => sp[l].key \notin {"len", "first"}
+\* a nested Limit sits under a key level, above a leaf that never answers SKIP, not above Sample
+NestedOk(nk, nlim, leaf) ==
+  nlim # NoLimit => nk >= 1 /\ leaf.val # "skip3" /\ ~(leaf.op = "agg" /\ leaf.agg = "Sample")
 
 \* id() items make sense only where every function applied to an item is the identity
 IdSafe(sp) ==
@@ -40,13 +58,19 @@ IdSafe(sp) ==
      \/ L.op \in {"list", "last"} /\ L.val = "ident"
      \/ L.op = "agg" /\ L.agg \in {"First", "Count"}
 ItemsFor(sp) ==
-  {VInt(i) : i \in (0 - NegItems)..ItemMax}
+  (CASE ItemKind = "int" -> {VInt(i) : i \in (0 - NegItems)..ItemMax}
+     [] ItemKind = "str" -> {VStr(w) : w \in Words}
+     [] ItemKind = "tup" -> {VTup(<<VInt(1), VStr("b")>>), VTup(<<VInt(1), VStr("a")>>),
+                             VTup(<<VInt(0), VStr("ba")>>), VTup(<<VInt(2), VStr("a")>>)})
   \cup (IF WithIds /\ IdSafe(sp) THEN {IdVal(l) : l \in {m \in 1..Len(sp) : sp[m].op \in {"dict", "list"}}} ELSE {})
 
 Init ==
   /\ \E nk \in 0..MaxKeyLevels : \E kfs \in [1..nk -> KFs] : \E leaf \in Leaves(nk) : \E lim \in LimitNs :
-       /\ spec = MkSpec(lim, kfs, leaf)
+     \E nlim \in NestedLimitNs :
+       /\ NestedOk(nk, nlim, leaf)
+       /\ spec = MkSpec(lim, kfs, nlim, leaf)
        /\ (WithIds => IdSafe(spec))
+       /\ (IF ItemKind = "int" THEN NumSafe(spec) ELSE OrdSafe(spec))
   /\ heap = <<>> /\ evals = <<>> /\ stack = <<>> /\ hist = <<>>
 
 RECURSIVE TotalFed(_)
